@@ -7,6 +7,7 @@ import RbV.Lemmas.MyersLongAll
 import RbV.Lemmas.MyersLongBand
 import RbV.Thm.GenSrcHamming
 import RbV.Thm.GenSrcUkkonen
+import RbV.Thm.GenSrcMyersSimple
 import RbV.Lemmas.HitsClamp
 /-!
 # C09 — approximate matchers and distance functions equal the edit-distance definition
@@ -353,5 +354,79 @@ example : RbV.Thm.GenSrcUkkonen.findAllSrc (unitW eqSym) [[], []] [1, 2, 1] [1, 
 example : RbV.Thm.GenSrcUkkonen.findAllSrc (unitW eqSym) [[0, 1, 1, 1, 2, 3, 4, 5], [0, 0, 1, 2, 1, 2, 3, 4]]
     [1, 1, 2, 2, 1, 1, 1] [2, 1, 2, 1, 1, 1, 1] 1 = RbV.Rs.Res.ok [] := by decide
 example : hits (unitW eqSym) [1, 1, 2, 2, 1, 1, 1] [2, 1, 2, 1, 1, 1, 1] 1 = [] := by decide
+
+/-! ### The single-word Myers matcher, translated from the source text (genukk)
+
+`RbV/Gen/SrcMyersState.lean`, `SrcMyersSimple.lean`, `SrcMyersMatches.lean` = `State::init`, `State::known_dist`,
+`Myers::_step`, `Myers::step`, `Myers::initial_state`, `Matches::new`, `Matches::next` of `pattern_matching/myers/{myers_impl,
+simple}.rs`, regenerated on every `./check C09`.  The generic word type `T: BitVec` is a `Nat` below `2^w` with the width `w` a
+parameter of every generated function, `T::DistType` a `Nat` below `2^wd`; a model state `s : St w` (`BitVec w`) is represented
+by `(s.pv.toNat, s.mv.toNat, s.dist)`.  Not translated: the constructor `new_ambig` (`HashMap`, closures) — that it stores
+`peq[a]` = the model's mask of symbol `a`, `bound = 1 << (m-1)` and `m` is read off by the mirror model and sampled. -/
+
+/-- **`Myers::_step`, as written, is the model's bit-vector step — for every word width** `w ≥ 2` (in particular `u8`, `u16`,
+`u32`, `u64`, `u128`) and `DistType` width `wd`: when `peq[a]` holds the word `eq` and `bound = 1 << (m-1)`, the translated
+function maps the representation of a state `s` to that of `MyersSimple.step m eq s` without panicking, on every state
+where the `dist` update (through `as i8`, sign extension to `usize`, `wrapping_add`, `from_usize(..).unwrap()`) neither
+goes below zero nor leaves `DistType` (side conditions `hlo`, `hwd`; they hold on every state a search reaches, see
+`myers_find_all_end_source_exact`). -/
+theorem myers_step_source_eq_model (w wd m : Nat) (hw : 1 < w) (peqT : List Nat) (a : Nat) (eq : BitVec w)
+    (s : RbV.Model.MyersSimple.St w) (hpeq : RbV.Rs.idx peqT a = RbV.Rs.Res.ok eq.toNat)
+    (hlo : ((s.pv &&& RbV.Model.MyersSimple.xhOf eq s.pv).getLsbD (m - 1)).toNat ≤
+      s.dist + ((s.mv ||| ~~~(RbV.Model.MyersSimple.xhOf eq s.pv ||| s.pv)).getLsbD (m - 1)).toNat)
+    (hhi : s.dist + 1 < 2 ^ 64) (hwd : (RbV.Model.MyersSimple.step m eq s).dist < 2 ^ wd) :
+    RbV.Gen.SrcMyersSimple.step_ (w := w) (wd := wd) (peq := peqT) (bound := 2 ^ (m - 1)) (pv := s.pv.toNat)
+        (mv := s.mv.toNat) (dist := s.dist) (a := a) =
+      RbV.Rs.Res.ok ((RbV.Model.MyersSimple.step m eq s).pv.toNat, (RbV.Model.MyersSimple.step m eq s).mv.toNat,
+        (RbV.Model.MyersSimple.step m eq s).dist) :=
+  RbV.Thm.GenSrcMyersSimple.step__eq_model w wd m hw peqT a eq s hpeq hlo hhi hwd
+
+/-- the four word types rust-bio instantiates (`impl_bitvec!(u8|u16|u32|u64, u8)`): one statement for all of them -/
+theorem myers_step_source_eq_model_std_widths (w : Nat) (hw : w = 8 ∨ w = 16 ∨ w = 32 ∨ w = 64) (m : Nat) (peqT : List Nat)
+    (a : Nat) (eq : BitVec w) (s : RbV.Model.MyersSimple.St w) (hpeq : RbV.Rs.idx peqT a = RbV.Rs.Res.ok eq.toNat)
+    (hlo : ((s.pv &&& RbV.Model.MyersSimple.xhOf eq s.pv).getLsbD (m - 1)).toNat ≤
+      s.dist + ((s.mv ||| ~~~(RbV.Model.MyersSimple.xhOf eq s.pv ||| s.pv)).getLsbD (m - 1)).toNat)
+    (hwd : (RbV.Model.MyersSimple.step m eq s).dist < 2 ^ 8) (hd : s.dist < 2 ^ 8) :
+    RbV.Gen.SrcMyersSimple.step_ (w := w) (wd := 8) (peq := peqT) (bound := 2 ^ (m - 1)) (pv := s.pv.toNat)
+        (mv := s.mv.toNat) (dist := s.dist) (a := a) =
+      RbV.Rs.Res.ok ((RbV.Model.MyersSimple.step m eq s).pv.toNat, (RbV.Model.MyersSimple.step m eq s).mv.toNat,
+        (RbV.Model.MyersSimple.step m eq s).dist) :=
+  myers_step_source_eq_model w 8 m (by omega) peqT a eq s hpeq hlo (by omega) hwd
+
+/-- **one call of `myers::Matches::next`, as written, equals the mirror model**: on every state a search can reach
+(`InvS`: the state after some text prefix) the call does not panic; `None` exactly when the text is exhausted and the
+model's `run` has no further pair, otherwise `Some((i, d))` = the model's next pair (`StepSpec`). -/
+theorem myers_next_source_eq_model (w wd : Nat) (eqv : Nat → Nat → Bool) (p : List Nat) (k : Nat) (hw1 : 1 < w)
+    (hm1 : 1 ≤ p.length) (hw : p.length ≤ w) (hwd : p.length < 2 ^ wd) (h64p : p.length + 1 < 2 ^ 64) (rest : List Nat)
+    (i : Nat) (s : RbV.Model.MyersSimple.St w) (inv : RbV.Thm.GenSrcMyersSimple.InvS w eqv p s)
+    (hb : ∀ c ∈ rest, c < 256) (h64 : i + rest.length < 2 ^ 64) :
+    ∃ r' tx' o, RbV.Thm.GenSrcMyersSimple.nextR w wd eqv p k (RbV.Thm.GenSrcMyersSimple.rep s) (rest, i) = RbV.Rs.Res.ok (r', tx', o) ∧
+      RbV.Thm.GenSrcScanD.StepSpec (RbV.Thm.GenSrcMyersSimple.stepO w eqv p k) (RbV.Thm.GenSrcMyersSimple.InvS w eqv p)
+        (fun _ s => RbV.Thm.GenSrcMyersSimple.rep s) rest i s r' tx' (o.map some) :=
+  RbV.Thm.GenSrcMyersSimple.next_eq_model w wd eqv p k hw1 hm1 hw hwd h64p rest i s inv hb h64
+
+/-- **the single-word Myers search, as written in the source, is exact**: `Matches::new` (what `find_all_end` calls) then
+`next` until `None`, run on the tables the constructor stores for the pattern (`peqTab`, `bound = 1 << (m-1)`, `m`), never
+panics and yields exactly the pairs `(end, d)`, `d ≤ k`, of the Sellers column — for every word width `w ≥ 2`, `DistType`
+width with `|p| < 2^wd`, pattern of `1..w` symbols, symbol equivalence (ambiguity map, wildcards), byte text and `k`. -/
+theorem myers_find_all_end_source_exact (w wd : Nat) (eqv : Nat → Nat → Bool) (p t : List Nat) (k : Nat) (hw1 : 1 < w)
+    (hm1 : 1 ≤ p.length) (hw : p.length ≤ w) (hwd : p.length < 2 ^ wd) (h64p : p.length + 1 < 2 ^ 64)
+    (hb : ∀ c ∈ t, c < 256) (h64 : t.length < 2 ^ 64) :
+    RbV.Thm.GenSrcMyersSimple.findAllSrc w wd (RbV.Thm.GenSrcMyersSimple.peqTab w eqv p) (2 ^ (p.length - 1)) p.length t k
+      = RbV.Rs.Res.ok (hits (unitW eqv) p t k) := by
+  rw [RbV.Thm.GenSrcMyersSimple.findAllSrc_eq_model w wd eqv p t k hw1 hm1 hw hwd h64p hb h64, myers_simple_eq w eqv p t k hm1 hw]
+
+-- non-vacuity: the translated `_step` on a `u8` state (pattern of 3 symbols, bound = 0b100), and a whole search
+example : RbV.Gen.SrcMyersSimple.step_ (w := 8) (wd := 8) (peq := [0, 0b101, 0b010, 0]) (bound := 0b100) (pv := 255) (mv := 0)
+    (dist := 3) (a := 1) = RbV.Rs.Res.ok (254, 0, 2) := by decide
+example : RbV.Gen.SrcMyersSimple.step_ (w := 8) (wd := 8) (peq := [0, 0b101, 0b010, 0]) (bound := 0b100) (pv := 255) (mv := 0)
+    (dist := 3) (a := 3) = RbV.Rs.Res.ok (255, 0, 3) := by decide
+-- outside the side condition `hlo` (a state no search reaches: `dist = 0` with a decreasing last row) the Rust code panics
+example : RbV.Gen.SrcMyersSimple.step_ (w := 8) (wd := 8) (peq := [0, 0b101, 0b010, 0]) (bound := 0b100) (pv := 255) (mv := 0)
+    (dist := 0) (a := 1) = RbV.Rs.Res.panic := by decide
+example : RbV.Thm.GenSrcMyersSimple.findAllSrc 8 8 [0, 0b101, 0b010, 0] 0b100 3 [1, 2, 1, 3, 1, 1] 1
+    = RbV.Rs.Res.ok [(1, 1), (2, 0), (3, 1), (4, 1), (5, 1)] := by decide
+example : RbV.Thm.GenSrcMyersSimple.findAllSrc 16 8 [0, 0b101, 0b010, 0] 0b100 3 [1, 2, 1, 3, 1, 1] 1
+    = RbV.Rs.Res.ok (hits (unitW eqSym) [1, 2, 1] [1, 2, 1, 3, 1, 1] 1) := by decide
 
 end RbV.Thm.C09
